@@ -100,6 +100,7 @@ func c19Run(r *engine.Run) int {
 	} else {
 		cases = append(cases, engine.J(c19Case{Shared: false, N: 2}), engine.J(c19Case{Shared: true, N: 2, Short: true}))
 	}
+	engine.CaseTimeout = 45 * time.Minute // these cases run a whole schedule search under their own time budget
 	engine.Map("c19", cases, func(i int, c json.RawMessage, res *engine.Result) {
 		r.Add("c19", c, res)
 		if res.Data != nil {
